@@ -382,7 +382,10 @@ fn gen_call(r: &mut Rng, sc: &SlotCtx, faults: &Faults, mode: Mode) -> Call {
             } else {
                 ((0..n).map(|_| kx(r)).collect(), if sc.two { (0..n).map(|_| ky(r)).collect() } else { vec![] })
             };
-            let mut q = QSpec { ty, shape: shape.clone(), xs, ys, ys_shape: None, lay: gen_lay(r) };
+            // xs and ys get independent memory layouts (same layout in half of the cases)
+            let lay = gen_lay(r);
+            let ys_lay = if !sc.two { Lay::C } else if r.chance(1, 2) { lay } else { [Lay::C, Lay::Window, Lay::F, Lay::Step2, Lay::Rev][r.weighted(&[3, 1, 3, 1, 1])] };
+            let mut q = QSpec { ty, shape: shape.clone(), xs, ys, ys_shape: None, lay, ys_lay };
             if sc.two && faults.mismatch && r.chance(1, 10) && mode != Mode::C18 {
                 // xs and ys of different shapes: documented panic
                 let mut s2 = shape.clone();
